@@ -208,6 +208,7 @@ type FuncReport struct {
 	External     []string `json:"external_callees_havocked,omitempty"`
 	Assumed      []string `json:"assumed_contracts_used,omitempty"`
 	SkippedPartial int    `json:"partial_function_unclaimed_obligations_skipped,omitempty"`
+	GuardOnly bool `json:"guarded_accesses_only,omitempty"`
 }
 
 type OblReport struct {
@@ -264,6 +265,8 @@ func main() {
 			_, has := g.funcsByKey[k]
 			fmt.Printf("%-50s props=%v assumed=%v inrepo=%v\n", k, c.Props, c.Assumed, has)
 		}
+	case "guardscan":
+		g.guardScan()
 	case "mod":
 		f := g.funcsByKey[*fn]
 		if f == nil {
@@ -353,6 +356,8 @@ type CheckResult struct {
 	Bounded      []interface{} `json:"bounded,omitempty"`
 	UnreachableReturns []string `json:"unreachable_returns,omitempty"`
 	AnchorLost   []*OblReport `json:"anchor_lost,omitempty"`
+	GuardUnchecked []string `json:"guarded_accessors_not_translated,omitempty"`
+	GuardRules   []map[string]interface{} `json:"guarded_declarations,omitempty"`
 	obls         []*Obligation
 }
 
@@ -369,6 +374,38 @@ func (g *Gen) check(prop, tier, outDir string, timeoutMS, seed, par int, verbose
 		}
 		keys = append(keys, k)
 	}
+	// the guarded_by pass: every function of the package that touches a guarded field (or calls a helper that relies
+	// on its caller's lock) is in the check, under its own contract if it has one, otherwise under an empty one
+	guardOnly := map[string]bool{}
+	synth := map[string]*Contract{}
+	for _, r := range g.spec.Guarded {
+		if !contains(r.Props, prop) {
+			continue
+		}
+		m := map[string]interface{}{"label": r.Label, "type": r.Type, "mutex": r.Mu, "fields": r.Fields, "declared_at": fmt.Sprintf("%s:%d", r.File, r.Line)}
+		if len(r.Except) > 0 {
+			m["exempt_functions"] = sortedKeys(r.Except)
+		}
+		if len(r.Deep) > 0 {
+			m["pointee_guarded_too"] = sortedKeys(r.Deep)
+		}
+		res.GuardRules = append(res.GuardRules, m)
+		if why := g.guardRuleUnresolved(r); why != "" {
+			res.AnchorLost = append(res.AnchorLost, &OblReport{Name: "guarded:" + r.Label + "#anchor#rule-unresolved", Kind: "anchor", Expect: "unsat", Verdict: "not-generated",
+				Clause: fmt.Sprintf("guarded declaration %s (%s:%d) no longer resolves: %s", r.Label, r.File, r.Line, why)})
+		}
+	}
+	for _, k := range g.guardedAccessors(prop) {
+		if contains(keys, k) {
+			continue
+		}
+		c := g.spec.Contracts[k]
+		if c == nil || c.FuncType != "" {
+			synth[k] = &Contract{Func: k, Partial: true, Abstract: true, NoCanary: true, Loops: map[int][]*Clause{}}
+		}
+		guardOnly[k] = true
+		keys = append(keys, k)
+	}
 	sort.Strings(keys)
 	for _, tc := range g.lostFuncTypes {
 		if tc.mentions(prop) {
@@ -381,6 +418,9 @@ func (g *Gen) check(prop, tier, outDir string, timeoutMS, seed, par int, verbose
 	}
 	for _, k := range keys {
 		c := g.spec.Contracts[k]
+		if synth[k] != nil {
+			c = synth[k]
+		}
 		if c.FuncType != "" {
 			n := len(g.funcTypeImpl[k])
 			if n == 0 && g.tpkg.Scope().Lookup(c.FuncType) != nil {
@@ -406,11 +446,25 @@ func (g *Gen) check(prop, tier, outDir string, timeoutMS, seed, par int, verbose
 			}()
 			fv.Generate()
 			return ""
-		}(); crashed != "" {
+		}(); crashed != "" && guardOnly[k] {
+			res.GuardUnchecked = append(res.GuardUnchecked, k+": "+crashed)
+			continue
+		} else if crashed != "" {
 			// the generator cannot translate the function as it now stands (a construct outside the subset that
 			// it does not even recognise): its obligations cannot be generated, so the property is not established
 			res.AnchorLost = append(res.AnchorLost, &OblReport{Name: k + "#anchor#not-translatable", Kind: "anchor", Expect: "unsat", Verdict: "not-generated",
 				Clause: "function " + k + " carries contract obligations for this property but could not be translated: " + crashed})
+			continue
+		}
+		if guardOnly[k] {
+			// in the check for its accesses to guarded state only: what its contract says is another property's business
+			fr := &FuncReport{Func: k, Notes: fv.notes, Unsupported: fv.unsupported, GuardOnly: true}
+			for _, o := range fv.obls {
+				if (o.Kind == "guarded" || o.Kind == "guard-reach") && contains(o.Props, prop) {
+					obls = append(obls, o)
+				}
+			}
+			res.Functions = append(res.Functions, fr)
 			continue
 		}
 		// missing loop invariants / lost anchors
